@@ -97,6 +97,9 @@ type FnExec struct {
 	atomicLocks bool
 	epochSerial map[int]int // allocation serial at the time each heap epoch began
 	famAxiom    map[string]bool
+	streqCache  map[[6]int]*Term
+	noAssume    bool // suppress assumption generation (while describing inputs for models)
+	pendingAxiom map[string]pendingFam
 }
 
 type rangeMap struct {
@@ -113,7 +116,7 @@ type ExecOpts struct {
 }
 
 func (fx *FnExec) assumeGlobal(t *Term) {
-	if t.IsTrue() {
+	if t.IsTrue() || fx.noAssume {
 		return
 	}
 	if t.open {
@@ -712,6 +715,7 @@ func (fx *FnExec) execInstr(fr *frame, st *State, instr ssa.Instruction) {
 		if !x.Call.IsInvoke() {
 			fx.escape(fr, st, fx.val(fr, x.Call.Value))
 		}
+		fx.spawnRequires(fr, st, x)
 		fx.drop("go statement (spawned body not part of this frame)")
 	case *ssa.Defer:
 		st.defers = append(st.defers, x)
@@ -1425,7 +1429,21 @@ func (fx *FnExec) strEq(x, y StrV) *Term {
 		}
 		return c.And(parts...)
 	}
+	if x.Arr.open || x.Off.open || x.Len.open || y.Arr.open || y.Off.open || y.Len.open {
+		// under a quantifier no Skolem constants may be introduced: plain definition
+		m := c.BoundVarNamed(fmt.Sprintf("m@seq.%d.%d.%d.%d", x.Arr.ID, x.Off.ID, y.Arr.ID, y.Off.ID), BV(64))
+		return c.And(lenEq, c.Forall([]*Term{m}, c.Implies(c.BVCmp("bvult", m, x.Len), c.Eq(c.Select(x.Arr, c.BVBin("bvadd", x.Off, m)), c.Select(y.Arr, c.BVBin("bvadd", y.Off, m))))))
+	}
+	ck := [6]int{x.Arr.ID, x.Off.ID, x.Len.ID, y.Arr.ID, y.Off.ID, y.Len.ID}
+	if fx.streqCache == nil {
+		fx.streqCache = map[[6]int]*Term{}
+	}
+	if e, ok := fx.streqCache[ck]; ok {
+		return e
+	}
 	eq := c.Fresh("streq", BoolSort)
+	fx.streqCache[ck] = eq
+	fx.streqCache[[6]int{y.Arr.ID, y.Off.ID, y.Len.ID, x.Arr.ID, x.Off.ID, x.Len.ID}] = eq
 	k := c.BoundVar("k", BV(64))
 	all := c.Forall([]*Term{k}, c.Implies(c.BVCmp("bvult", k, x.Len), c.Eq(c.Select(x.Arr, c.BVBin("bvadd", x.Off, k)), c.Select(y.Arr, c.BVBin("bvadd", y.Off, k)))))
 	w := c.Fresh("strneq.w", BV(64))
@@ -1673,4 +1691,49 @@ func valueRepresentable(t types.Type) bool {
 		return singleSort(t) != nil && !isObjT(u.Elem())
 	}
 	return false
+}
+
+// reprEq: representation equality of two values of type t.
+func (fx *FnExec) reprEq(t types.Type, a, b Val) *Term {
+	c := fx.c
+	switch x := a.(type) {
+	case *Term:
+		y, ok := b.(*Term)
+		if !ok {
+			if p, isP := b.(PtrV); isP {
+				return c.Eq(x, fx.ptrRef(p))
+			}
+			fx.oos("same(): shapes differ")
+		}
+		if x.Sort.IsArr() && t != nil && isArrayT(t) {
+			return fx.arrEq(t, x, y)
+		}
+		return c.Eq(x, y)
+	case SliceV:
+		y := b.(SliceV)
+		return c.And(c.Eq(x.Ref, y.Ref), c.Eq(x.Off, y.Off), c.Eq(x.Len, y.Len), c.Eq(x.Cap, y.Cap))
+	case StrV:
+		y := b.(StrV)
+		return c.And(c.Eq(x.Arr, y.Arr), c.Eq(x.Off, y.Off), c.Eq(x.Len, y.Len))
+	case IfaceV:
+		y := b.(IfaceV)
+		return c.And(c.Eq(x.Tag, y.Tag), c.Eq(x.Ref, y.Ref))
+	case PtrV:
+		switch y := b.(type) {
+		case PtrV:
+			return c.Eq(fx.ptrRef(x), fx.ptrRef(y))
+		case *Term:
+			return c.Eq(fx.ptrRef(x), y)
+		}
+	case StructV:
+		y := b.(StructV)
+		s := under(t).(*types.Struct)
+		var parts []*Term
+		for i := range x.F {
+			parts = append(parts, fx.reprEq(s.Field(i).Type(), x.F[i], y.F[i]))
+		}
+		return c.And(parts...)
+	}
+	fx.oos("same() on %T", a)
+	return nil
 }
